@@ -302,7 +302,7 @@ class Check:
             # mixed integer/real linear arithmetic (fmod contracts): cvc5 decides these instantly, z3 does not
             return [('cvc5', 10), ('z3', 6), ('z3-new', 12)] if s.tier == 'quick' else [('cvc5', 60), ('z3', 30), ('z3-new', 60)]
         if s.tier == 'quick':
-            return [('z3', 6), ('z3-new', 12), ('z3', 25)]
+            return [('z3', 6), ('z3-new', 12), ('z3', 45)]
         return [('z3', 10), ('z3-new', 40), ('cvc5', 20), ('z3', 120), ('z3-new', 120)]
 
     # ---------------- feasibility of forks
